@@ -109,7 +109,7 @@ impl Prop for C10 {
         ]
     }
     fn cases(&self, tier: Tier) -> u32 {
-        tier.pick(400, 8000)
+        tier.pick(800, 8000)
     }
     fn min_nontrivial(&self, tier: Tier) -> usize {
         tier.pick(150, 1500)
